@@ -239,6 +239,116 @@ def align(writer, regex):
     return False, last_why
 
 
+def snapshot_round_trip(ctx, repo, rule):
+    """Writer and reader composed by interpretation: GeckoShell.do_snapshot runs on a model facade (the logger calls
+    are captured and rendered in the shell's two log formats), every line is fed to GeckoSnapshot.parse on a snapshot
+    built by its constructor, and what the snapshot then reports is compared with what was written."""
+    from ..absint import ClassRef, Interp, Obj, PyRaise, Undecided
+    sh = repo.cls("GeckoShell")
+    ds = repo.method("GeckoShell", "do_snapshot")
+    cases = (
+        ("all-byte-values", bytes(range(256)) * 4, "inYT", 12, (88, 15, 0), (89, 11, 0), 61, 59, "367 v2.0"),
+        ("zeros-and-high-versions", bytes(1024), "inXM", 6, (255, 3, 12), (1, 0, 9), 255, 1, "186 v3.0"),
+        ("text-like-bytes", (b"[]',x0 " * 147)[:1024], "MAS-IBC-32K", 10, (70, 14, 0), (69, 11, 0), 9, 9, "9 v1.1"),
+    )
+    n = 0
+    for key, block, pack, ptype, en, co, cfg, log, ver in cases:
+        it = Interp(repo, max_depth=14)
+        lines = []
+
+        def log_hook(level, args, lines=lines):
+            if not args:
+                return
+            msg = args[0]
+            if isinstance(msg, str) and len(args) > 1:
+                try:
+                    msg = msg % tuple(args[1:])
+                except (TypeError, ValueError):
+                    msg = f"{msg} {args[1:]}"
+            lines.append(str(msg))
+        it.log_hook = log_hook
+        spa = Obj(None, {"revision": "19.00", "intouch_version_en": "{0} v{1}.{2}".format(*en), "intouch_version_co": "{0} v{1}.{2}".format(*co),
+                         "pack": pack, "version": ver, "config_number": 4, "config_version": cfg, "log_version": log, "pack_type": ptype,
+                         "struct": Obj(None, {"status_block": block}, name="struct"), "accessors": {}}, name="spa")
+        shell = Obj(sh, {"facade": Obj(None, {"spa": spa}, name="facade")}, name="shell")
+        try:
+            it.steps = 0
+            it.call(ds, shell, ["Heating (eco)"])
+        except PyRaise as e:
+            ctx.ob(rule, f"round-trip::{key}::writer", False, f"GeckoShell.do_snapshot raises {e.what} on the model facade", ds.loc)
+            continue
+        except Undecided as e:
+            raise AnalysisError(f"GeckoShell.do_snapshot on the model facade: {e}")
+        ctx.ob("R1", f"do_snapshot::writes-header-versions-block::{key}", len(lines) >= 3 and lines[0] == "Snapshot (Heating (eco))" and sum(1 for ln in lines if ln.startswith("[")) == 1,
+               f"GeckoShell.do_snapshot writes {[ln[:40] for ln in lines[:3]]}... ({len(lines)} lines): expected the `Snapshot (<name>)` header first, the version lines, and one block line", ds.loc)
+        ctx.ob("R2", f"writer::hex-list-of-block::{key}", bool(lines) and lines[-1] == str([hex(b) for b in block]),
+               f"GeckoShell.do_snapshot does not end with the block as the list of hex(b) for every byte (last line {lines[-1][:60] if lines else None!r}...)", ds.loc)
+        for fmt_name, fmt in (("logfile", "2020-12-08 19:53:28,310 geckolib.utils.shell INFO {}\n"), ("basic", "INFO:geckolib.utils.shell:{}\n")):
+            it2 = Interp(repo, max_depth=14)
+            try:
+                snap = it2.apply(ClassRef(repo.cls("GeckoSnapshot")), [], {})
+                for ln in lines:
+                    it2.steps = 0
+                    it2.call(repo.method("GeckoSnapshot", "parse"), snap, [fmt.format(ln)])
+                got = {"bytes": it2.getattr(snap, "bytes"), "packtype": it2.getattr(snap, "packtype"), "intouch_EN": it2.getattr(snap, "intouch_EN"),
+                       "intouch_CO": it2.getattr(snap, "intouch_CO"), "config_version": it2.getattr(snap, "config_version"), "log_version": it2.getattr(snap, "log_version"),
+                       "name": it2.getattr(snap, "name")}
+            except PyRaise as e:
+                got = {"raises": e.what}
+            except Undecided as e:
+                raise AnalysisError(f"GeckoSnapshot.parse on the written lines: {e}")
+            want = {"bytes": block, "packtype": pack, "intouch_EN": en, "intouch_CO": co, "config_version": cfg, "log_version": log, "name": "Heating (eco)"}
+            n += 1
+            diff = {k: (got.get(k) if k != "bytes" else (len(got.get(k) or b""), (got.get(k) or b"")[:8])) for k in want if got.get(k) != want[k]} if "raises" not in got else got
+            ctx.ob(rule, f"round-trip::{key}::{fmt_name}", got == want,
+                   f"a snapshot written by GeckoShell.do_snapshot ({key}: pack {pack}, EN {en}, CO {co}, config {cfg}, log {log}, {len(block)} block bytes) and read back by GeckoSnapshot.parse in the {fmt_name} log format differs in {diff}",
+                   repo.method("GeckoSnapshot", "parse").loc, sample={"rule": rule, "case": key, "format": fmt_name, "lines_written": len(lines)})
+    ctx.floor(rule, "snapshot round trips interpreted", n, 6)
+
+
+def reader_table(repo):
+    """[(pattern text, handler method name)] of the snapshot reader, in table order, however the table is kept: a list
+    of (pattern, bound method) pairs built in __init__, or a class-level tuple of records holding a compiled pattern and
+    a method name.  The snapshot is built by its constructor (by interpretation) and the table is found by role: the
+    longest sequence attribute whose every row has a regular expression and names a method of the class."""
+    from ..absint import BoundMethod, ClassRef, Interp, Obj, PyRaise, Undecided
+    cls = repo.cls("GeckoSnapshot")
+    it = Interp(repo, max_depth=10)
+    try:
+        snap = it.apply(ClassRef(cls), [], {})
+    except (PyRaise, Undecided) as e:
+        raise AnalysisError(f"GeckoSnapshot() cannot be constructed by interpretation: {e}")
+    cands = list(snap.attrs.values())
+    for k in repo.mro(cls):
+        for nm in k.consts:
+            try:
+                cands.append(it._class_value(k, nm))
+            except (PyRaise, Undecided):
+                continue
+    methods = {m for k in repo.mro(cls) for m in k.methods}
+
+    def row(r):
+        parts = list(r) if isinstance(r, (tuple, list)) else (list(r._tuple()) if isinstance(r, Obj) and r.attrs.get("__fields__") else
+                                                               ([v for kk, v in r.attrs.items() if not kk.startswith("__")] if isinstance(r, Obj) else None))
+        if not parts:
+            return None
+        pat = next((p for p in parts if isinstance(p, str) and p not in methods and any(ch in p for ch in "()\\[")), None)
+        if pat is None:
+            comp = next((p for p in parts if type(p).__name__ == "Pattern"), None)
+            pat = comp.pattern if comp is not None else None
+        fn = next((p.fi.name for p in parts if isinstance(p, BoundMethod)), None) or next((p for p in parts if isinstance(p, str) and p in methods), None)
+        return (pat, fn) if isinstance(pat, str) and fn else None
+    best = []
+    for c in cands:
+        if isinstance(c, (list, tuple)) and len(c) >= 8:
+            rows = [row(r) for r in c]
+            if all(rows) and len(rows) > len(best):
+                best = rows
+    if not best:
+        raise AnalysisError("GeckoSnapshot: reader table (rows of regular expression + handler method) not found by role")
+    return best
+
+
 def check(ctx):
     repo = Repo()
     T = tables(repo)
@@ -259,17 +369,10 @@ def check(ctx):
     from . import c01 as _c01
     _c01.sync_assembly(ctx.borrowed("R7", "C01", only=("R1", "R2", "R4")), repo)
     _c01.async_assembly(ctx.borrowed("R7", "C01", only=("R1", "R2", "R3", "R4")), repo)
+    ctx.rule("R8", "writer and reader composed by interpretation: three snapshots (all byte values / zeros with extreme versions / bytes that look like list punctuation, with a hyphenated pack name) written by GeckoShell.do_snapshot on a model facade and read back line by line through GeckoSnapshot.parse, in both log formats: bytes, pack type, firmware EN/CO, config and log versions and the name come back exactly")
+    snapshot_round_trip(ctx, repo, "R8")
     snap_init = repo.method("GeckoSnapshot", "__init__")
-    funcs = None
-    for n in ast.walk(snap_init.node):
-        if isinstance(n, ast.Assign) and ast.unparse(n.targets[0]) == "self._funcs" and isinstance(n.value, ast.List):
-            funcs = n.value
-    if funcs is None:
-        raise AnalysisError("GeckoSnapshot._funcs table not found")
-    table = []
-    for e in funcs.elts:
-        if isinstance(e, ast.Tuple) and len(e.elts) == 2 and isinstance(e.elts[0], ast.Constant):
-            table.append((e.elts[0].value, ast.unparse(e.elts[1]).split(".")[-1]))
+    table = reader_table(repo)
     ctx.floor("R1", "reader regex table rows", len(table), 12)
     for pat, fn in table:
         try:
@@ -326,30 +429,12 @@ def check(ctx):
                 ctx.ob("R1", f"line::Snapshot-header::name::{fmt_name}::{probe}", got == probe,
                        f"a snapshot named {probe!r}, written as {line.strip()!r}, is read back with the name {got!r} (rows {[fn for _, fn in name_rows]})", snap_init.loc,
                        sample={"rule": "R1", "name": probe, "format": fmt_name, "read_back": got} if probe == "a)b" else None)
-    order = [call_name(n) for n in ast.walk(ds.node) if isinstance(n, ast.Call) and call_name(n) == "info"]
-    ctx.ob("R1", "do_snapshot::writes-header-versions-block", len(order) == 3, f"do_snapshot writes {len(order)} kinds of lines (header, version lines, block expected)", ds.loc)
     # parse_log_file: a snapshot starts at a line containing "Snapshot" and takes lines containing "INFO"
     plf = repo.method("GeckoSnapshot", "parse_log_file")
     t = const_text(plf)
     ctx.ob("R1", "parse_log_file::markers", "'Snapshot' in line" in t and "'INFO' in line" in t, "parse_log_file no longer keys on the 'Snapshot' and 'INFO' markers the shell's log format carries", plf.loc)
 
-    # ---- R2 block dump ------------------------------------------------------------------------
-    dump = [n for n in ast.walk(ds.node) if isinstance(n, ast.ListComp) and isinstance(n.elt, ast.Call) and call_name(n.elt) == "hex"]
-    ok = len(dump) == 1 and ast.unparse(dump[0].generators[0].iter).endswith("struct.status_block") and ast.unparse(dump[0].elt.args[0]) == ast.unparse(dump[0].generators[0].target)
-    if not dump:
-        # explicit-loop idiom: acc = []; for b in block: acc.append(hex(b)); logger.info(acc)
-        from ..cfg import cfg_of
-        from ..src import receiver
-        gds = cfg_of(ds)
-        for an, ac in gds.nodes_calling("append"):
-            lp = gds.loop_of(an)
-            if lp is not None and lp.kind == "for" and ast.unparse(lp.ast.iter).endswith("struct.status_block") \
-                    and ast.unparse(ac.args[0]) == f"hex({ast.unparse(lp.ast.target)})":
-                acc = receiver(ac)
-                logged = any(isinstance(c, ast.Call) and call_name(c) == "info" and c.args and ast.unparse(c.args[0]) == acc for c in ast.walk(ds.node))
-                unconditional = len([x for x in gds.guards(an, entry=lp, cut_back=True) if x[0] is not lp]) == 0
-                ok = logged and unconditional
-    ctx.ob("R2", "writer::hex-list-of-block", ok, "do_snapshot does not log [hex(b) for b in status_block]", ds.loc)
+    # ---- R2 block dump: what the writer logs is checked on the interpreted writer (snapshot_round_trip); here the reader
     pat = by_fn.get("_re_data")
     ok = pat is not None
     if ok:
